@@ -17,7 +17,10 @@ from vfx.run import Cell
 MARK = b"8=FIX."
 
 
-def frames(I, n, symvals):
+TRICKY = ("8=FIX.4.4", "a 8=FIX.4.4 9=12 b", "10=000", "9=", "x8=FIX.", "=", "8=FIX.4.4=9=5=35=0=10=000")
+
+
+def frames(I, n, symvals, tricky=False):
     """n valid frames as a peer's encoder produces them (session and application types)."""
     peer = FIXSession(1, "S", "T")  # the peer's sender is our target
     peer.next_num_out = 1
@@ -30,7 +33,11 @@ def frames(I, n, symvals):
         lambda v: FIXMessage(FMsg.TESTREQUEST, {112: v}),
     ]
     for i in range(n):
-        v = I.str(f"val{i}", 1, symvals, 0x21, 0x7E) if (symvals and I is not None) else "v%d" % i
+        if tricky:
+            # field values that look like framing: frame-start marker, BodyLength / CheckSum look-alikes
+            v = TRICKY[I.choice(f"tricky{i}", len(TRICKY))] if I is not None else max(TRICKY, key=len)
+        else:
+            v = I.str(f"val{i}", 1, symvals, 0x21, 0x7E) if (symvals and I is not None) else "v%d" % i
         out.append(codec.encode(specs[i % len(specs)](v), peer).encode("latin-1"))
     return out
 
@@ -62,8 +69,8 @@ def _deliver(I, chunks, fr, session, garbage_free=True):
     return [len(got)]
 
 
-def h_cuts(I, n, ncuts, lo, hi, symvals, session):
-    fr = frames(I, n, symvals)
+def h_cuts(I, n, ncuts, lo, hi, symvals, session, tricky=False):
+    fr = frames(I, n, symvals, tricky)
     stream = b"".join(fr)
     L = len(stream)
     hi = min(hi, L)
@@ -99,8 +106,8 @@ def h_near(I, n, width, symvals, session):
     return _deliver(I, [stream[:c1], stream[c1:c2], stream[c2:]], fr, session) + [c1, c2]
 
 
-def h_bytewise(I, n, symvals, session):
-    fr = frames(I, n, symvals)
+def h_bytewise(I, n, symvals, session, tricky=False):
+    fr = frames(I, n, symvals, tricky)
     stream = b"".join(fr)
     I.goal("cut")
     return _deliver(I, [stream[i:i + 1] for i in range(len(stream))], fr, session)
@@ -168,6 +175,16 @@ def cells(tier):
                 dict(frames=3, cuts=1, offsets=f"[{lo},{lo + 63}]", values="1 symbolic char per frame"))
         add("2cut/near-boundaries/3frames", lambda I: h_near(I, 3, 8, 0, True),
             dict(frames=3, cuts=2, offsets="each within 8 bytes of a frame boundary", processing="real"))
+    LT = len(b"".join(frames(None, 2, 0, True)))
+    for lo in range(0, LT + 1, 32):
+        add(f"1cut/2frames/framing-lookalike-values/{lo}", (lambda I, lo=lo: h_cuts(I, 2, 1, lo, lo + 31, 0, False, True)),
+            dict(frames=2, cuts=1, offsets=f"every offset in [{lo},{lo + 31}]",
+                 values="per frame one of " + ", ".join(repr(t) for t in TRICKY) + " (solver-chosen)"))
+    add("bytewise/2frames/framing-lookalike-values", lambda I: h_bytewise(I, 2, 0, False, True),
+        dict(frames=2, reads="1 byte each", values="framing look-alikes (solver-chosen)"))
+    if not quick:
+        add("2cut/2frames/framing-lookalike-values", lambda I: h_cuts(I, 2, 2, 0, 10**6, 0, False, True),
+            dict(frames=2, cuts=2, offsets="every pair", values="framing look-alikes (solver-chosen)"), 3000.0)
     add("bytewise/3frames", lambda I: h_bytewise(I, 3, 0 if quick else 1, False),
         dict(frames=3, reads="1 byte each", values="concrete" if quick else "1 symbolic char per frame"))
     add("bytewise/3frames/session", lambda I: h_bytewise(I, 3, 0, True), dict(frames=3, reads="1 byte each", processing="real"))
